@@ -22,6 +22,26 @@ CLAIMED = {
             "Theorems mempool_partition / no_overlap / alloc_fresh / destroy_returns_all, stack_geom_size / free_inverse / disjoint / align, lifo_linearizable / lifo_no_aba; the models are tied to the code by differential runs with canonical chain dumps and by an allocation ledger on real ULT creation/free over every size residue mod 64 and every 8-byte user-stack offset; regression programs for the two repaired defects (F1, F4) run first.",
             "Trusted: Lean kernel; each mem-pool operation modelled as atomic (concurrency only in the LIFO model); OS effects of mmap/huge pages/mprotect exercised, not modelled; 64-bit tag wrap of the LIFO assumed not to occur.",
             "DESIGN.md §5 C15"),
+    "C07": ("Lean 4 refinement proof (pointer-level thread_queue ring -> deque, all op sequences; generated pool-end table for FIFO/FIFO_WAIT/RANDWS by translator tools/poolgen.py) + T2 differential execution of thread_queue.h and of the pool API (ASan/UBSan) against the model drivers",
+            "Theorems tq_refines_deque, tq_each_pushed_popped_once, tq_fifo_order, tq_size_exact, tq_critical_section, pool_kind_ends (over the table regenerated from fifo.c/fifo_wait.c/randws.c), pool_push_many_order / pop_many_order. The concurrent half (linearizability of critical sections under the pool spinlock / pthread mutex) rests on tq_critical_section plus the lock-exclusion argument and is exercised under the controlled scheduler by the C01/C06 scenarios; a dedicated interleaving model of the lock fast path is future work (partial).",
+            "Trusted: Lean kernel; poolgen.py (clang AST); differential harness. Sequential semantics for each critical section; spinlock / pthread mutex+cond exclusion assumed for the concurrent reading.",
+            "DESIGN.md §5 C07"),
+    "C14": ("Lean 4 refinement + interleaving proofs (unit map with the real hash, lock-free get under concurrent map/unmap; association create/free balance over all legal sequences) + T2 differential execution (white-box unit.c under ASan; API-level user pools with colliding units)",
+            "Theorems unitmap_refines_map, unitmap_lockfree_get, assoc_create_free_balance, assoc_no_use_after_free, assoc_failure_rollback, assoc_unit_thread_translation. The last sentence of the property (work units execute exactly once under any user pop order) is checked dynamically here and proved in the C01 model for pools with arbitrary pop choice.",
+            "Trusted: Lean kernel; differential harness; sequential consistency for the interleaving model.",
+            "DESIGN.md §5 C14"),
+    "C16": ("Lean 4 refinement proof (per-unit key table -> map, any size/number of keys, destructor-once, creation race for all interleavings) + T2 differential execution through the public key API with white-box dumps",
+            "Theorems ktable_refines_map, ktable_units_independent, ktable_destructor_once, ktable_blocks_freed_once, ktable_revive_keeps_values, ktable_create_race (+ failure path, the repaired F9).",
+            "Trusted: Lean kernel; differential harness; concurrent set/get linearizability beyond the creation race not modelled (partial).",
+            "DESIGN.md §5 C16"),
+    "C17": ("Lean 4 refinement + interleaving proofs (sorted rank list -> partial map for all op sequences; native-thread state machine of abtd_stream.c for all interleavings incl. spurious wake-ups) + T2 differential on the real stream API and controlled schedules of abtd_stream.c",
+            "Theorems rank_sorted_distinct, rank_auto_is_mex, rank_request_iff_free, rank_change_iff_free, rank_reusable_after_free, num_eq_length, xs_join_only_waiting, xs_revive_exactly_once, xs_no_lost_wakeup, replace_keeps_caller_running_partial (non-overlapping replacements only: the overlapping case is the open known finding F7, with a decide'd counter-example).",
+            "Trusted: Lean kernel; differential harness; pthread mutex/cond as ideal primitives. Known finding F7 (double main-scheduler replacement) is reported as KNOWN-FINDING.",
+            "DESIGN.md §5 C17"),
+    "C18": ("Lean 4 theorems over goto-programs regenerated from the C error ladders on every run (translator tools/laddergen.py, clang AST) — for every k the k-th acquisition failing leaves the resource ledger balanced — + exhaustive single-fault enumeration on the real code (link-time allocator/pthread interposer, every k of every scenario) with the acquire/release sequence compared to the model",
+            "152 theorems ledger_fail_balanced / success_exact / handle_null_or_untouched / preexisting_untouched per translated routine (loops with <= 2 pools are _partial); 104 scenarios x every k enumerated on the real library incl. ABT_init; two defects found and repaired (F10, F11), F9 repaired.",
+            "Trusted: Lean kernel; laddergen.py + clang AST; classification table of acquiring/releasing callees (cross-checked by the enumeration); single failures only.",
+            "DESIGN.md §5 C18"),
 }
 NOT_YET = "machinery for this property is not built yet (work in progress; see DESIGN.md §10 build order)"
 
